@@ -340,8 +340,89 @@ def rule_R16_3(ctx):
     return r
 
 
+def rule_R16_4(ctx):
+    import prov
+    prog = ctx.prog
+    r = RuleResult("R16.4", "operator type errors name the lhs type, then the "
+                   "rhs type: the error is built from (lhs, rhs) in order and "
+                   "its message formats them in that order",
+                   "swapped operands in the diagnostic name the wrong types "
+                   "for `a op b`")
+    cands = ops.find_operator_fn(prog)
+    if len(cands) != 1:
+        r.anchor_missing("operator function")
+        return r
+    f, op_p, lhs_p, rhs_p = cands[0]
+    pv = prov.Prov(prog, foreign="stop", field_based=False, follow_params=False)
+    n = 0
+    for g in [f] + prog.closures_of(f.path):
+        for bb, i, pl, kd, aops, sp in g.aggregates(ERR, "InvalidOpTypes"):
+            n += 1
+            got = {}
+            for name in ("lhs", "rhs"):
+                o = pv.origins(g, aops[kd["fields"].index(name)], ())
+                got[name] = sorted(set(x[2] for x in o if x[0] == "param" and x[1] == f.path))
+            want = {"lhs": [lhs_p[0][1]], "rhs": [rhs_p[0][1]]}
+            r.inst("%s: InvalidOpTypes{lhs <- param %s, rhs <- param %s}" % (g.path, got["lhs"], got["rhs"]))
+            if got == want:
+                r.ok()
+            else:
+                r.fail("%s | InvalidOpTypes operands lhs=%s rhs=%s" % (g.path, got["lhs"], got["rhs"]),
+                       "Error::InvalidOpTypes must carry (lhs, rhs) = the "
+                       "operator function's lhs and rhs parameters (%s, %s); "
+                       "found %s" % (want["lhs"], want["rhs"], got), where=mir.span_loc(sp))
+        for bb, i, pl, kd, aops, sp in g.aggregates(ERR, "InvalidEqOpTypes"):
+            n += 1
+            idx = {}
+            for name in ("lhs_type", "rhs_type"):
+                cp = g.canon_op(aops[kd["fields"].index(name)])
+                fl = [p for p in cp if p != "*" and p != "&" and p[0] == "f"]
+                idx[name] = fl[-1][1] if fl else None
+            r.inst("%s: InvalidEqOpTypes{lhs_type <- .%s, rhs_type <- .%s of the comparison's error}" % (
+                g.path, idx["lhs_type"], idx["rhs_type"]))
+            if idx == {"lhs_type": 1, "rhs_type": 2}:
+                r.ok()
+            else:
+                r.fail("%s | InvalidEqOpTypes operands %s" % (g.path, idx),
+                       "Error::InvalidEqOpTypes must take the (lhs type, rhs "
+                       "type) components of the comparison's error in order", where=mir.span_loc(sp))
+    r.require_floor("operator type-error construction sites", n, 2)
+    d = prog.fns.get("<eval::error::Error as std::fmt::Display>::fmt")
+    if d is None:
+        r.anchor_missing("<Error as Display>::fmt")
+        return r
+    cp = (("arg", 1), "*")
+    vf = mir.VariantFlow(d, [(cp, ERR)])
+    adt = prog.adts.get(ERR)
+    for variant, names in (("InvalidOpTypes", ("lhs", "rhs")), ("InvalidEqOpTypes", ("lhs_type", "rhs_type"))):
+        fields = [fd["name"] for v in adt["variants"] if v["name"] == variant for fd in v["fields"]]
+        order = []
+        for bb in sorted(b for b in vf.blocks_for((variant,)) if len(vf.at(b)) == 1):
+            for s_ in d.stmts(bb):
+                if s_[0] == "=" and s_[2][0] == "agg" and s_[2][1].get("k") == "array":
+                    for o in s_[2][2]:
+                        cur = d.canon_op(o)
+                        for _ in range(4):
+                            if cur and cur[0][0] == "call":
+                                cc = d.call_at(cur[0][1])
+                                if cc is None or not cc.args:
+                                    break
+                                cur = d.canon_op(cc.args[0])
+                            else:
+                                break
+                        fl = [p for p in cur if p != "*" and p != "&" and p[0] == "f"] if cur else []
+                        order.append(fields[fl[-1][1]] if fl and fl[-1][1] < len(fields) else None)
+        r.inst("message of %s formats %s" % (variant, order))
+        if names[0] in order and names[1] in order and order.index(names[0]) < order.index(names[1]):
+            r.ok()
+        else:
+            r.fail("Display | %s message order=%s" % (variant, ",".join(str(x) for x in order)),
+                   "the message of Error::%s does not format %s before %s" % (variant, names[0], names[1]))
+    return r
+
+
 def run(ctx):
-    rs = [rule_R16_1(ctx), rule_R16_2(ctx), rule_R16_3(ctx)]
+    rs = [rule_R16_1(ctx), rule_R16_2(ctx), rule_R16_3(ctx), rule_R16_4(ctx)]
     # nested positions of ==: an identity shortcut must not accept kinds the
     # structural comparison rejects (two functions)
     import c10
